@@ -1,5 +1,6 @@
 import SqiProofs.LllGuard
 import SqiProofs.LllDim2
+import SqiProofs.LllCheck
 import Mathlib.LinearAlgebra.Matrix.ToLinearEquiv
 import Mathlib.LinearAlgebra.Matrix.Nondegenerate
 /- C16 (4b): positivity of the norm of an accepted response (`sample_response`): the matrix called `gram` is, when the
@@ -97,5 +98,36 @@ theorem sampleResponse_found_pos {p : Int} {rl : Nat} {denom content : Int} {lll
       normFrom2Gram (respGram p denom content lll) v < 2 ^ rl := by
   obtain ⟨v, hm, hz, hx, hlt⟩ := sampleResponse_found h
   exact ⟨v, hm, hz, hx, div2_pos (respGram_pos hp hd hdg hdiv hz) (heven v hm), hlt⟩
+
+
+/-! ### the fallback value in terms of the first LLL vector -/
+theorem qfEval_e0 (g : Mat4) : g.qfEval e0 = g.get 0 0 := by
+  obtain ⟨⟨a00, a01, a02, a03⟩, ⟨a10, a11, a12, a13⟩, ⟨a20, a21, a22, a23⟩, ⟨a30, a31, a32, a33⟩⟩ := g
+  simp [Mat4.qfEval, Mat4.eval, Vec4.ofFn, Mat4.get, Mat4.row, Vec4.get, e0]
+
+/-- `dg · gram[0][0] = N(first LLL column)` when the scalar division is exact -/
+theorem gram00_eq {p denom content : Int} {lll : Mat4}
+    (hdiv : ((((lll.transpose).mul (gramP p)).mul lll).scalarDiv (div2 (denom * denom * content))).2 = true) :
+    div2 (denom * denom * content) * (respGram p denom content lll).get 0 0 = form p (lll.col 0) (lll.col 0) := by
+  have h1 := scalarDiv_exact _ _ hdiv e0
+  rw [qfEval_gram, eval_e0] at h1
+  rw [← h1, ← qfEval_e0]; rfl
+
+theorem colsQ_zero_form (p : Int) (lll : Mat4) :
+    SqiProofs.LllCheck.formQ p (SqiProofs.LllCheck.colsQ lll 0) (SqiProofs.LllCheck.colsQ lll 0)
+      = ((form p (lll.col 0) (lll.col 0) : Int) : ℚ) := by
+  have : SqiProofs.LllCheck.colsQ lll 0 = SqiProofs.LllCheck.vq (lll.col 0) := by
+    obtain ⟨⟨a00, a01, a02, a03⟩, ⟨a10, a11, a12, a13⟩, ⟨a20, a21, a22, a23⟩, ⟨a30, a31, a32, a33⟩⟩ := lll
+    funext k
+    rcases fin4_cases k with rfl | rfl | rfl | rfl <;> rfl
+  rw [this, SqiProofs.LllCheck.form_cast]
+
+theorem div2_lt {x B : Int} (hB : 0 < B) (h : x < 2 * B) : div2 x < B := by
+  unfold div2
+  rcases Int.lt_or_le x 0 with hx | hx
+  · have h1 : Int.tdiv x 2 = -(Int.tdiv (-x) 2) := by rw [Int.neg_tdiv]; omega
+    have h2 : 0 ≤ Int.tdiv (-x) 2 := Int.tdiv_nonneg (by omega) (by decide)
+    omega
+  · rw [Int.tdiv_eq_ediv_of_nonneg hx]; omega
 
 end SqiProofs.LllResp
